@@ -516,8 +516,6 @@ Proof.
   - intros ? ? ? ? (fc & _ & HC). exists fc. exact HC.
 Qed.
 End SOUND.
-Print Assumptions parse_switch_sound.
-Print Assumptions switch_body_is_statement_sequence.
 
 (* ---------- what the acceptance condition says ---------- *)
 Lemma existsb_text_in v l : existsb (text_eqb v) l = true <-> In v l.
@@ -820,10 +818,6 @@ Proof. eexists. split; [reflexivity|]. cbn. auto. Qed.
 Corollary err_range_rejected_at {A} a b m : rejected_at (@err_range A a b m) a.
 Proof. eexists. split; [reflexivity|]. cbn. auto. Qed.
 End COMPLETE.
-Print Assumptions parse_switch_complete.
-Print Assumptions switch_without_cases_rejected.
-Print Assumptions switch_second_default_rejected.
-Print Assumptions switch_repeated_value_rejected.
 
 (* ================= which written body runs ================= *)
 (* the first body written at or after an item: a case without statements shares the body of the next item that has some;
@@ -939,10 +933,6 @@ Lemma break_leaves_switch_nested t r r1 tg rest k s :
 Proof. cbn [Sem2.sstep pop_break]. rewrite resume_kseq. reflexivity. Qed.
 End STEP.
 
-Print Assumptions written_first_match.
-Print Assumptions written_default.
-Print Assumptions written_no_match_no_default.
-Print Assumptions written_one_body.
 
 (* ================= composition: tokens -> AST -> the body that runs ================= *)
 Section COMPOSE.
@@ -1033,8 +1023,6 @@ Proof.
     [apply items_ok_top; split; assumption|exact Hf].
 Qed.
 End COMPOSE.
-Print Assumptions parsed_switch_runs_the_written_body.
-Print Assumptions written_switch_runs_the_written_body.
 
 (* ================= Theorem D: above the fuel bound of FuelOk.v the switch parser accepts exactly the grammar ================= *)
 (* monotonicity of the grammar in the body predicate, relative to a property of streams that is inherited by suffixes *)
@@ -1162,8 +1150,6 @@ Proof.
     apply switch_src_is_parses; assumption.
 Qed.
 End EXACT.
-Print Assumptions parse_switch_exact.
-Print Assumptions parse_switch_fuel_independent.
 
 (* ---------- 'break' / 'continue' written in a case body ---------- *)
 (* the bodies of a switch are parsed under the break stack  tag-of-this-switch :: bs  and the unchanged continue stack cs
@@ -1232,9 +1218,6 @@ Theorem parsed_switch_runs_the_written_body_real St case_matches exec flag_set t
     runs_written consts St exec flag_set trainer_beaten cmp_var cmp_var_value case_matches find_label (List.length ts) operand oline its.
 Proof. apply parsed_switch_runs_the_written_body. apply ProgSrc.parse_format_advs. Qed.
 End REAL.
-Print Assumptions parse_switch_sound_real.
-Print Assumptions parse_switch_exact_real.
-Print Assumptions parsed_switch_runs_the_written_body_real.
 
 (* ================= examples: the hypotheses are satisfiable; the model run on concrete sources ================= *)
 Module SwitchExamples.
